@@ -180,6 +180,7 @@ type loopInput struct {
 	NKeys      int          `json:"nkeys"`
 	RetryCount int          `json:"retryCount"`
 	OnlyOnce   bool         `json:"onlyOnce"`
+	Force      bool         `json:"force"` // storage_force_snapshot_interval = 1 h; "interval" steps let it pass
 	Behaviours [][]loopStep `json:"behaviours"`
 }
 
@@ -206,6 +207,7 @@ type loopRunner struct {
 	injected      map[string]bool
 	prevNewest    map[string]Ver
 	oldSnapName   string
+	forceDue      bool   // the forced-snapshot interval has passed since the last own snapshot
 	otherSnapName string // newest snapshot of the other instance ("remote2") lying in the bucket from the start
 	realFuture    uint64
 	heldRelease   chan struct{}
@@ -272,6 +274,9 @@ func (lr *loopRunner) newSyncer() error {
 	c.MemoryDecompressedSnapshots = 3
 	c.MemoryDownloadedSnapshots = 3
 	c.OnlyOnce = lr.in.OnlyOnce
+	if lr.in.Force {
+		c.StorageForceSnapshotInterval = time.Hour
+	}
 	h := hooks.New()
 	lr.updates = make(chan snapshot.Update, 8)
 	ch := lr.updates
@@ -631,6 +636,12 @@ func runLoopBehaviour(R *Result, in loopInput, beh []loopStep, bi int) error {
 				bad("conformance", "own-not-delivered", si, nil, "the receiver did not deliver the own snapshot %s within 3s", name)
 				return nil
 			}
+		case "interval":
+			// the forced-snapshot interval passes: the last own snapshot is now two hours old (the loop is parked)
+			if sy := w.Insts[1].S; sy != nil {
+				sy.VerifSetLastSnapshotTime(time.Now().Add(-2 * time.Hour))
+			}
+			lr.forceDue = true
 		case "deliverother":
 			lr.fb.mu.Lock()
 			if ch := lr.fb.loadGate[lr.otherSnapName]; ch != nil {
@@ -668,6 +679,7 @@ func runLoopBehaviour(R *Result, in loopInput, beh []loopStep, bi int) error {
 			gatesMu.Unlock()
 			lr.done = nil
 			lr.recv = nil
+			lr.forceDue = false
 			lr.mergedBase = len(lr.injectedTimes) // pending injected updates are lost with the process
 			for i := range lr.appCommits {
 				lr.appCommits[i].PreStart = true // anything not captured yet counts as changed while LS was down
@@ -789,7 +801,7 @@ func runLoopBehaviour(R *Result, in loopInput, beh []loopStep, bi int) error {
 					bad("conformance", "args", si, nil, "SendOnce transaction id %v, specification %d", ev.Args[0], a.W)
 				}
 				// C10: the decision to upload (the snapshot covers every commit up to this transaction)
-				if !lr.sinceStore && lr.storedInRun {
+				if !lr.sinceStore && lr.storedInRun && !lr.forceDue {
 					bad("C10", "echo-upload", si, nil, "the loop uploads although the application has not committed since the last upload of this run")
 				}
 				lr.sinceStore = false
@@ -815,6 +827,8 @@ func runLoopBehaviour(R *Result, in loopInput, beh []loopStep, bi int) error {
 				if inst == lr.ownName {
 					lr.ownMerged = true
 				}
+			case "send.committed":
+				lr.forceDue = false
 			case "send.stored":
 				lr.storedInRun = true
 				if lr.ownExisted && !lr.ownMerged {
